@@ -850,7 +850,7 @@ func (s *State) extendFunctionEnv(
 		// A parameter named like the function itself is not read from the store: Get answers the function
 		// for that name. Keep it a plain variable, so that registers do not change what the name means.
 		ownName := fn.Name != nil && fn.Name.Literal() == param.Value().Literal()
-		if !s.NoReg && pval.Type() == object.INTEGER && env.HasRegisters() && !object.Constant(param.Value().Literal()) && !ownName {
+		if !s.NoReg && pval.Type() == object.INTEGER && env.HasRegisters() && !object.Constant(param.Value().Literal()) && !object.ReservedName(param.Value().Literal()) && !ownName {
 			// We will release all these registers just by returning/dropping the env.
 			reg, nbody, ok := setupRegister(env, param.Value().Literal(), pval.(object.Integer).Value, newBody)
 			if ok {
@@ -1009,8 +1009,9 @@ func (s *State) evalForInteger(fe *ast.ForExpression, start *int64, end int64, n
 	var newBody ast.Node
 	var register object.Register
 	newBody = fe.Body
-	// A constant name is never a register: binding it must go through the constant check.
-	useReg := name != "" && !s.NoReg && s.env.HasRegisters() && !object.Constant(name)
+	// A constant name is never a register: binding it must go through the constant check. Nor is a reserved name
+	// (self, info, an extension function): reading it does not go through the variable.
+	useReg := name != "" && !s.NoReg && s.env.HasRegisters() && !object.Constant(name) && !object.ReservedName(name)
 	started := false
 	if useReg {
 		var ok bool
